@@ -68,4 +68,15 @@ PROPS = {
         "text": "Around every patch / version switch the values, ids and commit history of all documents on that node are compared; the reference model keeps being checked under the active version (added fields null, earlier values back after switching forth); merges between nodes on different versions must not fail and nodes must agree on the fields both know.",
         "note": "A field whose write was merged while the receiver's active version lacked it carries no expectation on that receiver (the statement only demands agreement on fields both know). Patches form one linear chain of versions; no lens migrations.",
     },
+    "C11": {
+        "engine": "E1", "level": "exploration", "design_ref": "DESIGN.md §5 C11",
+        "technique": "deterministic simulation: byte monitors on every store write, every update notification and every reply of key-less replicas, over seeded create/update/delivery histories with a simulated key service",
+        "rule": E1_RULE + "; documents created with document-level or field-level encryption, every value written to an encrypted field is a unique byte pattern; receivers with and without keys (seeded mask)",
+        "real_vs_stub": REAL_E1 + "; key exchange: stub (the harness answers enc-keys-request events from the creator's key store, or refuses)", "assumptions": ASSUME_COMMON,
+        "probes": ["writes_scanned", "payloads_scanned", "keys_served", "key_requests_refused", "keys_tracked"],
+        "quick": {"count": 150, "budget_s": 60, "workers": 16},
+        "thorough": {"count": 100000, "budget_s": 1500, "workers": 16},
+        "text": "Every byte written under /db/blocks on any node, every update-notification block, everything a key-less node writes under any prefix and every reply it gives is searched for the unique plaintext patterns of encrypted fields (CBOR and text forms); key bytes must only be written under /db/enc; key-holding nodes are checked against the reference model (read back exactly).",
+        "note": "Small integers cannot serve as byte patterns and are not searched; strings and float64 values are. The simulated transport payload of E2 is not part of this check yet.",
+    },
 }
